@@ -215,6 +215,15 @@ def run(ctx):
     # dispatch() of rotate_euler passes (phi, theta, psi) before coordinates: decided for all dispatchers under C01.3
     ctx.analysed["kernels"] = sorted(where)
     ctx.analysed["euler_orders"] = ORDERS
+    from .. import singular as _sg
+    import re as _re
+
+    ctx.rule("C10.special-arguments",
+             "every variant of the rotations, evaluated (IEEE point semantics of the inlined IR) on generic operands with special values of the scalar arguments - 0, +-1, +-pi, pi/2, "
+             "+-0.5, and for several arguments each in turn - gives the values frozen from the pinned tree in tables/special_args.json: an algebraically equivalent rewrite "
+             "with a pole at a half turn / at rest / at zero (s**2/(1+c) for 1-c, (gamma-1)/beta**2 for gamma**2/(1+gamma)) changes them to NaN exactly there")
+    _n_sp = _sg.special_obligations(ctx, L, "C10.special-arguments", lambda short: bool(_re.search(r"rotate", short)))
+    ctx.anchor("rotations variants with frozen special-argument values", _n_sp, 10)
     ctx.decline("float behaviour for large angles / multiples of pi (rounding)")
     ctx.decline("non-Cartesian signatures: transported to these kernels by C01's template check")
     ctx.decline("time / proper time untouched: decided by the _wrap_result pass-through summaries (C03)")
